@@ -5,7 +5,7 @@ import z3
 from sx import core as S, env as E, pl, plh, families as F, wd
 
 PROPERTY = "C10"
-REGIONS = [ "leaf-leaf-same-id", "leaf-compound-same-id", "compound-compound-same-id", "self-reference", "duplicate-child",
+REGIONS = ["generated-id-coincidence",  "leaf-leaf-same-id", "leaf-compound-same-id", "compound-compound-same-id", "self-reference", "duplicate-child",
            "identical-sharing", "plain-tree", "accepted", "rejected"]
 BOUNDS = ("adversarial skeletons with <=3 occurrences of a reused id (leaf/leaf, leaf/compound, compound/compound), self references, duplicate children, "
           "diamond sharing, plain trees; boxes of the reused leaves and thresholds/signs of the reused compounds symbolic (boxes in [-32768,32767], "
@@ -56,6 +56,10 @@ def skeletons(tier="thorough"):
     L.append(("identical-sharing", N("Any", N("All", N("Any", a(), b(), id="S"), c(), id="B"), N("All", N("Any", a(), b(), id="S"), d(), id="C"), id="A")))
     L.append(("identical-sharing", N("All", N("Xor", a(), b()), N("Imply", N("Any", a(), b()), c()), id="A")))
     L.append(("identical-sharing", N("All", N("Any", a(), b()), N("Imply", N("Any", a(), b()), c(), id="R"), id="A")))
+    # generated-id coincidences: different sub-propositions whose auto-generated ids collide (ids are a digest of the concatenated child ids)
+    L.append(("generated-id-coincidence", N("All", N("Any", N("Any", F.V("ab"), F.V("c")), d(), id="B"), N("Any", N("Any", F.V("a"), F.V("bc")), F.V("e"), id="C"), id="A")))
+    L.append(("generated-id-coincidence", N("All", N("Any", F.AL(1, F.V("x1"), sign=None), d(), id="B"), N("Any", F.AL(11, F.V("x"), sign=None), F.V("e"), id="C"), id="A")))
+    L.append(("generated-id-coincidence", N("All", N("Any", N("All", F.V("ab"), F.V("c")), d(), id="B"), N("Any", N("All", F.V("a"), F.V("bc")), F.V("e"), id="C"), id="A")))
     for sk in F.curated()[:14]:
         L.append(("plain-tree", sk))          # concrete parameters: every hashed symbolic integer forks against all earlier ones (M5 decided)
     return L
@@ -133,8 +137,11 @@ def run_inst(spec, run):
         ctx.preregister(nums)
         err = e = None
         S.HASH_MODE = "decided"
+        wdo = None
         try:
             m = pl.build(ns, model_spec, env)
+            wdo = wd.welldefined_objects(lambda n: issubclass(n.__class__, ns.puan.variable), pl.build(ns, model_spec, env),
+                                         lambda x: S.term(x), lambda a, b: a == b, lambda xs: z3.And(xs), z3.BoolVal(True), z3.BoolVal(False))
             with E.inj_hash_shadow():
                 e = list(m.errors())
         except RecursionError:
@@ -143,7 +150,7 @@ def run_inst(spec, run):
             err = "%s: %s" % (type(ex).__name__, ex)
         finally:
             S.HASH_MODE = "structural"
-        return dict(env=env, e=e, err=err)
+        return dict(env=env, e=e, err=err, wdo=wdo)
 
     def on_path(ctx, d):
         run.path(ctx)
@@ -153,6 +160,9 @@ def run_inst(spec, run):
             return {"env": plh.conc_env(m, env)}
         run.region(spec["cls"])
         WD = wd.welldefined(model_spec, lambda x: S.term(pl.P(env, x)), lambda a, b: a == b, lambda xs: z3.And(xs), z3.BoolVal(True), z3.BoolVal(False))
+        if d["wdo"] is not None:
+            # the object-level predicate sees the real (possibly coinciding) generated ids; both must hold for "well-defined"
+            WD = z3.And(WD, d["wdo"])
         if d["err"] is not None:
             # a model the constructor or errors() cannot even process: only a violation if it is well-defined
             run.obligation(ctx, "raises-on-well-defined-model", WD, conc, extra=d["err"])
